@@ -42,6 +42,7 @@ def setup(ctx):
         "a non-2x upstream response carries no body; upstream metas with bare CR/LF or > 1024 bytes may be answered with 43 or relayed sanitised (must be well-formed either way)",
         "a truncated 2x body (upstream closes cleanly mid-body) cannot be told from a complete one and is relayed as received",
     ]
+    ctx.require("monitor", "concurrent_exchanges", 8)
     ctx.require("monitor", "exchanges", 74)
     ctx.require("monitor", "verbatim_compared", 43)
     ctx.require("monitor", "faults_injected", 25)
@@ -186,8 +187,12 @@ def run(ctx):
             def fetch(path="/x", timeout=20):
                 return live.fetch_raw(srv.port, f"gemini://127.0.0.1:{srv.port}{path}\r\n".encode(), timeout=timeout)
 
-            # ---- A. well-formed upstream responses are relayed verbatim
+            # ---- A. well-formed upstream responses are relayed verbatim (through a location with a generous
+            # upstream timeout: a healthy upstream that is slow only because this machine is busy is no fault)
             cases = well_formed_cases(rng, ctx.quick())
+            srvA, _ = world.server(cfg, timeout=15)
+            srvA.__enter__()
+            fetchA = lambda path="/x", timeout=30: live.fetch_raw(srvA.port, f"gemini://127.0.0.1:{srvA.port}{path}\r\n".encode(), timeout=timeout)  # noqa: E731
             for i, (stream, cls, stclass, cs) in enumerate(cases):
                 if not ctx.mine(i):
                     continue
@@ -202,7 +207,7 @@ def run(ctx):
                         conn.close()
 
                     world.upstream_script["fn"] = fn
-                    r = fetch()
+                    r = fetchA()
                     world.upstream.wait_idle(3)
                     ctx.count("monitor", "exchanges")
                     ctx.count("monitor", "verbatim_compared")
@@ -220,6 +225,7 @@ def run(ctx):
                     else:
                         ctx.count("outcome", f"verbatim:{cls}:{stclass}")
                     ctx.case(("verbatim", cls, stclass, cs, chunked, r["data"][:2]), True, sample={"class": cls, "charset": cs, "upstream": stream[:60], "downstream": r["data"][:60], "identical": r["data"] == stream})
+            srvA.__exit__(None, None, None)
             # ---- grey metas
             if ctx.shard == 0:
                 for stream, name in [(b"20 text/gemini\nx\r\nbody", "meta-bare-lf"), (b"20 text/gem\rini\r\nbody", "meta-bare-cr"), (b"51 " + b"m" * 3000 + b"\r\n", "meta-too-long"),
@@ -382,6 +388,75 @@ def run(ctx):
                             ctx.case(("slow-upstream", behaviour, rate_limit, r["data"][:2]), True, sample=wit)
             finally:
                 P.REQUEST_TIMEOUT = old_rt
+                world.upstream_script["fn"] = None
+        # ---- D2. several downstream requests in flight through the same proxy location (one shared upstream
+        # client): each gets the relay of ITS upstream exchange, and one exchange's fault stays its own
+        if ctx.mine(6):
+            import threading
+
+            BODY = bytes((i * 11 + 1) & 0xFF for i in range(30000))
+            ups = {
+                "/fast": b"20 text/gemini\r\nquick\n",
+                "/slow": b"20 application/octet-stream\r\n" + BODY,
+                "/slow-text": b"20 text/plain; charset=iso-8859-1\r\n" + b"caf\xe9 " * 3000,
+                "/late-header": b"31 gemini://elsewhere.example/\r\n",
+            }
+
+            def fn(conn):
+                line = conn.read_line(timeout=3) or b""
+                path = "/" + line.split(b"/", 3)[-1].decode("latin-1").strip() if line.count(b"/") >= 3 else "/"
+                if path == "/stall":
+                    time.sleep(3.0)
+                    return
+                if path == "/reset":
+                    conn.send(b"20 text/plain\r\npartial")
+                    time.sleep(0.1)
+                    conn.reset()
+                    return
+                data = ups.get(path, b"51 unknown\r\n")
+                if path.startswith("/slow"):
+                    conn.send(data[: len(data) // 2])
+                    time.sleep(0.25)
+                    conn.send(data[len(data) // 2:])
+                elif path == "/late-header":
+                    time.sleep(0.2)
+                    conn.send(data)
+                else:
+                    conn.send(data)
+                conn.close()
+
+            srv6, _ = world.server(cfg, timeout=2.0)
+            with srv6:
+                world.upstream_script["fn"] = fn
+                combos = [("/slow", "/fast"), ("/slow", "/stall"), ("/slow-text", "/reset"), ("/late-header", "/fast"), ("/slow", "/slow-text", "/fast"), ("/slow", "/fast", "/fast", "/stall")]
+                for rep in range(ctx.pick(1, 6)):
+                    for combo in combos:
+                        out = {}
+
+                        def one(idx, path):
+                            time.sleep(0.03 * idx)
+                            out[idx] = live.fetch_raw(srv6.port, f"gemini://127.0.0.1:{srv6.port}{path}\r\n".encode(), timeout=15)
+
+                        ths = [threading.Thread(target=one, args=(i, p)) for i, p in enumerate(combo)]
+                        for t in ths:
+                            t.start()
+                        for t in ths:
+                            t.join(30)
+                        world.upstream.wait_idle(4)
+                        for i, path in enumerate(combo):
+                            r = out.get(i) or {"data": b"", "eof": False}
+                            ctx.count("monitor", "exchanges")
+                            ctx.count("monitor", "concurrent_exchanges")
+                            wit = {"in_flight_together": list(combo), "this_request": path, "downstream": r["data"][:120], "downstream_len": len(r["data"])}
+                            if path in ("/stall", "/reset"):
+                                judge_fault(ctx, "concurrent:" + path[1:], r, extra=wit)
+                            elif r["data"] != ups[path]:
+                                a = analyse_server_stream(r["data"])
+                                ctx.violation(f"relay-altered:concurrent:{'truncated' if ups[path].startswith(r['data']) and a['ok'] else 'other'}",
+                                              f"request for {path} was not relayed intact ({len(r['data'])} of {len(ups[path])} bytes) while other requests were in flight through the same location", wit)
+                            else:
+                                ctx.count("monitor", "verbatim_compared")
+                        ctx.case(("concurrent", combo, rep), True, sample={"in_flight_together": list(combo)})
                 world.upstream_script["fn"] = None
         # ---- E. refused connection / TLS garbage / oversize: separate servers
         if ctx.mine(3):
